@@ -1573,7 +1573,7 @@ func TestC13(t *testing.T) {
 			e.penaltySequence(base, g1, pi)
 		}
 	}
-	// savings across zero-rate windows through the real wasm binding: the history of s94, the touched locker (D35), lockers
+	// savings across zero-rate windows through the real wasm binding: the history of s94, the touched locker (D45), lockers
 	// created in the window
 	for v := 0; v < 3; v++ {
 		e.zeroWindowSequence(base, v)
